@@ -458,7 +458,7 @@ Proof.
     + intros j Ij. apply in_map_iff in Ij as (j0&<-&I0). fold (f j0). rewrite Hf. auto.
     + intros n Hn. destruct (JC n Hn) as [K|K]; [left|right; exact K]. fold f. now apply find_job_map.
   - (* Metrics *)
-    destruct (find_trial t (w_trials w)), (db_get t (w_db w)); try exact J. jframe J.
+    destruct (find_trial t (w_trials w)); [|exact J]. jframe J.
   - (* EarlyStop *)
     destruct (find_trial t (w_trials w)) as [tr|] eqn:Ft; [|exact J].
     destruct (c_es (w_cfg w) && t_is tr TCreated && negb (t_completed tr) && negb (t_deleting tr) &&
